@@ -23,6 +23,11 @@ for d in sorted(os.listdir(f"{V}/seeded")) if os.path.isdir(f"{V}/seeded") else 
     mp = f"{V}/seeded/{d}/meta.json"
     if os.path.exists(mp) and json.load(open(mp)).get("property") == prop:
         muts.append({"name": "seeded-" + d, "prop": prop, "kind": "break", "abs_patch": f"{V}/seeded/{d}/patch.diff"})
+# one generated benign variant: dozens of locals/parameters renamed with gofmt -r (rules must not depend on local names)
+import re as _re
+_src = open(f"{V}/selftest/rename_variant.py").read()
+RENAMES = json.loads("[" + _re.search(r"RENAMES = \[(.*?)\]", _src, _re.S).group(1).replace("\n", " ") + "]")
+muts.append({"name": "benign-rename-locals", "prop": prop, "kind": "benign", "renames": RENAMES})
 env_go = {k: v for k, v in os.environ.items() if k not in ("GOFLAGS", "GOWORK", "GOTOOLCHAIN", "GOSUMDB")}
 base = tempfile.mkdtemp(prefix="hvthorough_")
 def one(m):
@@ -37,6 +42,11 @@ def one(m):
             pr = subprocess.run(["patch", "-p1", "-s", "--no-backup-if-mismatch", "-i", patch], cwd=repo, capture_output=True, text=True)
             if pr.returncode != 0:
                 return {"name": m["name"], "result": "not-applicable (patch does not apply to this tree)"}
+        for pair in m.get("renames", []):
+            a, b = pair.split(":")
+            files = subprocess.run(f"grep -rlw '{a}' --include=*.go app sdk | grep -v _test.go | grep -v '\\.pb\\.go'", shell=True, cwd=repo, capture_output=True, text=True).stdout.split()
+            if files:
+                subprocess.run(["gofmt", "-r", f"{a} -> {b}", "-w"] + files, cwd=repo, capture_output=True, env=env_go)
         for e in m.get("edits", []):
             path = os.path.join(repo, e["file"])
             src = open(path).read()
